@@ -38,7 +38,7 @@ FAMILIES = ['planes', 'sphere', 'cylinder', 'mixed', 'dup-lower-unflagged',
             'dup-higher-unflagged', 'dup-both-flagged', 'with-tr', 'unused',
             'only-imp0', 'macrobody', 'none', 'in-union', 'via-complement',
             'in-union-branch', 'one-sheet-cone', 'one-sheet-cone-twin',
-            'unused-flagged-twin']
+            'unused-flagged-twin', 'trcl-two-mentions']
 _PER = {'quick': 12, 'thorough': 3500}
 KIND = {'*': 'REFLECTION', '+': 'COSINUS'}
 
@@ -173,6 +173,24 @@ def build(case):
                                     imp={'n': '1'}))
         if rng.random() < 0.4:
             flag(rng.choice(planes))
+    if fam == 'trcl-two-mentions':
+        # one flagged surface mentioned twice in the expression of a cell
+        # that is moved by a TRCL (every mention is transformed on its own):
+        # still one surface, one entry
+        from ..gen_surf import tr_spec
+        tgt = rng.choice(planes[:2] + [inner])
+        flag(tgt)
+        lit = M.S(tgt.id) if tgt is not inner else M.S(-7)
+        other = M.S(3) if tgt.id != 3 else M.S(5)
+        cells[0].geom = M.OR(M.AND(M.S(-7), lit, other),
+                             M.AND(M.S(-7), lit, M.NOT(other)))
+        mot = Motion([rnd(rng, -0.3, 0.3), rnd(rng, -0.3, 0.3),
+                      rnd(rng, -0.3, 0.3)])
+        cells[0].trcl = tr_spec(rng, mot, 'inline3')
+        # the other cells no longer tile with the moved one; keep only the
+        # moved cell and the outside
+        deck.cells = [cells[0], M.Cell(9, mat=0, geom=M.CELLC(1),
+                                       imp={'n': '0'})]
     if fam == 'one-sheet-cone-twin':
         # the two sheets of one double cone as two cards, one of them
         # flagged: the other sheet must not inherit the condition
@@ -246,7 +264,9 @@ def build(case):
             extra = M.AND(shell, M.CELLC(2))
         deck.cells.insert(2, M.Cell(4, mat=2, rho='-2.7', geom=extra,
                                     imp={'n': '1'}))
-    if rng.random() < 0.4:
+    if rng.random() < 0.4 and fam != 'trcl-two-mentions':
+        # (without de-duplication every transformed mention of a surface
+        # stays a SURF of its own, with an entry of its own)
         deck.cli.append('--skip-deduplication')
     deck.surfs.sort(key=lambda s: s.id)
     deck.tags.add(f'c16.{fam}')
@@ -329,18 +349,35 @@ def run(case, ctx):
     nprng = np.random.default_rng(case.rng.getrandbits(60))
     pts = nprng.uniform(-8, 8, (400, 3))
 
-    def locus_values(sur):
+    # a flagged surface bounds the converted cells as it stands, or moved by
+    # the TRCL of the cell that mentions it: one "instance" per motion
+    instances = []
+    for sur in bounding:
+        seen = []
+        for cel in deck.cells:
+            if deck.importance_zero(cel):
+                continue
+            if sur.id not in {leaf[1] for leaf in M.expr_leaves(cel.geom)}:
+                continue
+            mot = deck.motion_of(cel.trcl)
+            key = None if mot is None else (tuple(mot.o), tuple(mot.b.flat))
+            if key not in seen:
+                seen.append(key)
+                instances.append((sur, mot))
+
+    def locus_values(sur, mot=None):
+        loc = pts if mot is None else mot.to_aux(pts)
         if sur.kind in ('kx', 'ky', 'kz') and len(sur.params) == 3 or \
                 sur.kind in ('k/x', 'k/y', 'k/z') and len(sur.params) == 5:
             # the surface as a point set is the full (two-sheet) cone
             from .. import mcnp_ref
-            mot = reference.surf_motion(sur)
-            loc = pts if mot is None else mot.to_aux(pts)
+            smot = reference.surf_motion(sur)
+            loc = loc if smot is None else smot.to_aux(loc)
             return mcnp_ref.elementary(sur.kind, sur.params[:-1], loc)
-        return reference.leaf_sense(('s', sur.id, 1, None), pts)
+        return reference.leaf_sense(('s', sur.id, 1, None), loc)
 
-    def same_locus(sur, t4surf):
-        fref = locus_values(sur)
+    def same_locus(sur, mot, t4surf):
+        fref = locus_values(sur, mot)
         fact = t4eval.surf_value(t4surf, pts, t4.transforms)
         ok = (np.abs(fref) > 1e-9) & (np.abs(fact) > 1e-9)
         prod = np.sign(fref[ok]) * np.sign(fact[ok])
@@ -349,56 +386,57 @@ def run(case, ctx):
     ids = [tok for _k, tok in t4.bc]
     if len(set(ids)) != len(ids):
         out.violation('bc-duplicate-entry', f'entries {t4.bc}')
-    matched = {s.id: [] for s in bounding}
+    matched = {k: [] for k in range(len(instances))}
     for kind, tok in t4.bc:
         out.judged += 1
         if not tok.lstrip('-').isdigit() or int(tok) not in t4.surfs:
             continue        # reported by the bc-defined-surf rule above
         t4surf = t4.surfs[int(tok)]
-        owners = [s for s in bounding if KIND[s.flag] == kind
-                  and same_locus(s, t4surf)]
+        owners = [k for k, (sur, mot) in enumerate(instances)
+                  if KIND[sur.flag] == kind and same_locus(sur, mot, t4surf)]
         if not owners:
             out.violation('bc-on-wrong-surface', f'entry {kind} {tok} '
                           f'({t4surf.raw}) matches no flagged surface '
                           f'bounding a converted cell; flagged: '
                           f'{[" ".join(s.atoms()) for s in flagged]}')
-        for sur in owners:
-            matched[sur.id].append(tok)
+        for k in owners:
+            matched[k].append(tok)
     # flagged cards describing the same surface with the same kind may share
     # one entry, or have one each when they stay distinct SURFs
     groups = []
-    for sur in bounding:
-        fref = locus_values(sur)
+    for k, (sur, mot) in enumerate(instances):
+        fref = locus_values(sur, mot)
         for grp in groups:
-            gref = locus_values(grp[0])
+            gsur, gmot = instances[grp[0]]
+            gref = locus_values(gsur, gmot)
             prod = np.sign(fref) * np.sign(gref)
-            if grp[0].flag == sur.flag and (np.all(prod >= 0)
-                                            or np.all(prod <= 0)):
-                grp.append(sur)
+            if gsur.flag == sur.flag and (np.all(prod >= 0)
+                                          or np.all(prod <= 0)):
+                grp.append(k)
                 break
         else:
-            groups.append([sur])
+            groups.append([k])
     for grp in groups:
         out.judged += 1
         entries = set()
-        for sur in grp:
-            entries.update(matched[sur.id])
-        names = [' '.join(s.atoms()) for s in grp]
+        for k in grp:
+            entries.update(matched[k])
+        names = [' '.join(instances[k][0].atoms()) for k in grp]
         if not entries:
             out.violation('bc-missing', f'flagged surface(s) {names} bound a '
                           f'converted cell but no entry of kind '
-                          f'{KIND[grp[0].flag]} designates their locus; '
-                          f'entries: {t4.bc}')
+                          f'{KIND[instances[grp[0]][0].flag]} designates '
+                          f'their locus; entries: {t4.bc}')
         elif len(entries) > len(grp):
             out.violation('bc-duplicate', f'{names} have entries '
                           f'{sorted(entries)}')
-    leak_check(case, out, deck, reference, t4, flagged)
+    leak_check(case, out, deck, reference, t4, flagged, instances)
     out.sample = {'flagged': [' '.join(s.atoms()) for s in flagged],
                   'options': deck.cli, 'entries': t4.bc}
     return out
 
 
-def leak_check(case, out, deck, reference, t4, flagged):
+def leak_check(case, out, deck, reference, t4, flagged, instances=()):
     '''Wherever a surface that carries a boundary condition actually bounds a
     written non-virtual volume, a flagged MCNP surface of that kind must pass
     there (its sense must flip across the boundary): the condition must not
@@ -451,13 +489,16 @@ def leak_check(case, out, deck, reference, t4, flagged):
         if not active.any():
             continue
         covered = np.zeros(len(root), dtype=bool)
-        for sur in flagged:
+        todo = [(sur, None) for sur in flagged] + list(instances)
+        for sur, mot in todo:
             if KIND[sur.flag] != kind or (sur.is_macro and
                                           sur.kind not in ('sph', 'ell')):
                 continue
             leaf = ('s', sur.id, 1, None)
-            covered |= np.sign(reference.leaf_sense(leaf, plus)) != \
-                np.sign(reference.leaf_sense(leaf, minus))
+            pls = plus if mot is None else mot.to_aux(plus)
+            mns = minus if mot is None else mot.to_aux(minus)
+            covered |= np.sign(reference.leaf_sense(leaf, pls)) != \
+                np.sign(reference.leaf_sense(leaf, mns))
         out.counters['bc_boundary_points'] += int(active.sum())
         out.judged += int(active.sum())
         bad = active & ~covered
